@@ -4,7 +4,7 @@ root=${VROOT:-/verif}
 if [ -n "$SNAP" ]; then
   # run from a snapshot (evidence goes to the snapshot too): used to try the checks while /verif is being edited
   root=/tmp/vsnap_sweep.$$; rm -rf $root; mkdir -p $root/out
-  rsync -a --exclude out --exclude .git ${VROOT:-/verif}/ $root/; cp -r ${VROOT:-/verif}/out/cache $root/out/cache 2>/dev/null
+  rsync -a --exclude out --exclude .git ${VROOT:-/verif}/ $root/; [ -z "$NOCACHE" ] && cp -r ${VROOT:-/verif}/out/cache $root/out/cache 2>/dev/null
   trap 'rm -rf $root' EXIT
 fi
 cd $root
